@@ -4,6 +4,18 @@
 From TV Require Import Base.I32 Model.Blocks Model.BlocksInst Gen.DesugarRules Proofs.BlocksStatic Proofs.BlocksSim.
 Open Scope Z_scope.
 
+Lemma w32_eq z : w32 z = wrap32 z.
+Proof.
+  unfold w32. destruct (in_i32b z) eqn:E; auto. apply in_i32b_spec in E. symmetry. apply wrap32_id; auto.
+Qed.
+Lemma w32_range z : in_i32 (w32 z).
+Proof. rewrite w32_eq. apply wrap32_range. Qed.
+Lemma rlookup_iwr v z r : rlookup v (iwr v z r) = Some z.
+Proof.
+  induction r as [|[k x] t IH]; cbn [iwr rlookup]. rewrite Z.eqb_refl; reflexivity.
+  destruct (v =? k) eqn:E; cbn [rlookup]. rewrite Z.eqb_refl; reflexivity. rewrite E. exact IH.
+Qed.
+
 Lemma IL_const : forall e n r, const_int IL e = Some n -> eval_int IL e r = Ok (n, r).
 Proof. intros e n r H. destruct e; cbn in *; try discriminate. inversion H; subst. reflexivity. Qed.
 
@@ -13,16 +25,16 @@ Proof. destruct b; cbn; unfold in_i32, I32_MIN, I32_MAX; lia. Qed.
 Lemma IL_i32 : forall e r z r', eval_int IL e r = Ok (z, r') -> in_i32 z.
 Proof.
   cbn [eval_int IL]. induction e as [z0|v|a IHa op b IHb|v]; intros r z r' H; cbn [ieval] in H.
-  - inversion H; subst. apply wrap32_range.
-  - unfold ird in H. destruct (rlookup v r); cbn in H; inversion H; subst. apply wrap32_range.
+  - inversion H; subst. apply w32_range.
+  - unfold ird in H. destruct (rlookup v r); cbn in H; inversion H; subst. apply w32_range.
   - apply obind_ok in H. destruct H as ([za ra] & Ea & H). apply obind_ok in H. destruct H as ([zb rb] & Eb & H).
-    inversion H; subst. cbn [fst]. destruct op; cbn [bop_eval]; try apply wrap32_range; apply b2z_range.
-  - unfold ird in H. destruct (rlookup v r); cbn in H; inversion H; subst. apply wrap32_range.
+    inversion H; subst. cbn [fst]. destruct op; cbn [bop_eval]; try apply w32_range; apply b2z_range.
+  - unfold ird in H. destruct (rlookup v r); cbn in H; inversion H; subst. apply w32_range.
 Qed.
 
 Lemma IL_rw : forall v z r, in_i32 z -> rd IL v (wr IL v z r) = Ok z.
 Proof.
-  intros v z r H. cbn [rd wr IL]. unfold ird, iwr. cbn [rlookup]. rewrite Z.eqb_refl.
+  intros v z r H. cbn [rd wr IL]. unfold ird. rewrite rlookup_iwr, w32_eq.
   rewrite wrap32_id by auto. reflexivity.
 Qed.
 
